@@ -5,6 +5,8 @@ C14.a one naming expression for sub-blocks: writer (generate_json) and reader (r
 C14.b every splitting / store instruction has a stack arity and a translation (the splitter reads both)
 C14.c the rebuild never fabricates instructions (shared with C09.b)
 C14.d variable numbers are compared as numbers
+C14.e partition cuts: relative positions are re-based by the offset of the cut
+C14.f numeric partition: pieces, overlaps and re-assembly
 """
 import ast
 
